@@ -206,7 +206,7 @@ func c01R8(ic *IC, r *Report, rule string, only map[string]bool) {
 	r.Info["result_storing_closures_checked"] = nChecked
 	floor := 50
 	if only != nil {
-		floor = 2 // the two closures of recv2 (the other channel generators write their slot directly)
+		floor = 1
 	}
 	if nChecked < floor {
 		r.Errorf("%s: only %d result-storing closures analysed (of %d)", rule, nChecked, nClosures)
